@@ -34,7 +34,9 @@ fn op_proof(input: &Value) -> Value {
 		Err(e) => return json!({"bad_input": e.to_string()}),
 	};
 	match ch.get_proof(&kp) {
-		Ok((proof, raw)) => json!({"proof": proof, "raw_proof": raw, "file_name": ch.get_file_name()}),
+		Ok((proof, raw)) => {
+			json!({"proof": proof, "raw_proof": raw, "file_name": ch.get_file_name()})
+		}
 		Err(e) => json!({"err": e.message}),
 	}
 }
@@ -47,8 +49,10 @@ fn op_keyinfo(input: &Value) -> Value {
 	let jwk = kp.jwk_public_key().map(|v| v.to_string());
 	let tp = kp.jwk_public_key_thumbprint().map(|v| v.to_string());
 	match (jwk, tp) {
-		(Ok(j), Ok(t)) => json!({"jwk": j, "thumbprint_input": t, "key_type": kp.key_type.to_string(),
-			"default_alg": kp.key_type.get_default_signature_alg().to_string()}),
+		(Ok(j), Ok(t)) => {
+			json!({"jwk": j, "thumbprint_input": t, "key_type": kp.key_type.to_string(),
+			"default_alg": kp.key_type.get_default_signature_alg().to_string()})
+		}
 		_ => json!({"err": "jwk"}),
 	}
 }
@@ -89,7 +93,13 @@ fn op_jws_mac(input: &Value) -> Value {
 		Ok(k) => k,
 		Err(e) => return json!({"bad_input": e.message}),
 	};
-	match crate::jws::encode_kid_mac(&keyb, &a, s(input, "kid"), s(input, "payload").as_bytes(), s(input, "url")) {
+	match crate::jws::encode_kid_mac(
+		&keyb,
+		&a,
+		s(input, "kid"),
+		s(input, "payload").as_bytes(),
+		s(input, "url"),
+	) {
 		Ok(j) => json!({"jws": j, "alg": a.to_string()}),
 		Err(e) => json!({"err": e.message}),
 	}
@@ -101,7 +111,9 @@ pub fn dispatch(op: &str, _rt: &tokio::runtime::Runtime, input: &Value) -> Optio
 		"keyinfo" => Some(op_keyinfo(input)),
 		"jws" => Some(op_jws(input)),
 		"jws_mac" => Some(op_jws_mac(input)),
-		"b64" => Some(json!({"b64": acme_common::b64_encode(&input["hex"].as_str().map(unhex).unwrap_or_default())})),
+		"b64" => Some(
+			json!({"b64": acme_common::b64_encode(&input["hex"].as_str().map(unhex).unwrap_or_default())}),
+		),
 		_ => None,
 	}
 }
